@@ -92,6 +92,15 @@ CHECKS = {
             "combinations of chunk spectra, exact subsample sizes, S/pi/Watterson/Tajima D/Fst/theta_L vs textbook formulas from the "
             "genotype matrix, pi invariant under projection.",
             "missing data expressed as ./. only; positions on more than one line are not judged under subsampling", "DESIGN.md §2 C13"),
+    "C17": ("differential monitor at Cache1D/Cache2D integrate*, mixture* and PDFs against a re-implementation of the documented quadrature (O-dfe); schedule/fault workloads on the real constructors with bitwise comparison and exactly-once event logs",
+            "Caches are built by the real constructors from synthetic demo_sel_func's: integrate / integrate_point_pos (cached, uncached, "
+            "repeated with other theta) / 2-D point masses with the documented rho weights / mixtures / Vourlaki_mixture against "
+            "trapezoid + tail references; linearity in theta; selection-blind total weight and its refinement; cpus in {1,2,3,5,8,16} "
+            "and split_jobs 1..6 bitwise equal to the single-process cache, per-(pid,gamma) event logs checked for exactly-once "
+            "coverage; every missing / conflicting job and workers raising on the first, middle, last or every gamma must raise; "
+            "compiled bivariate pdfs against Python and closed-form references (ASan overlay in thorough).",
+            "tail terms judged at the accuracy the code requests from scipy (epsrel 1e-3, epsabs 1e-4); a worker that dies instead "
+            "of raising is liveness and not decided", "DESIGN.md §2 C17"),
     "C18": ("invariant monitors on LowPass partition/matrix functions (brute-force enumeration, row-stochasticity, unit-interval) and on corrected models (closure properties, deep-coverage limit)",
             "Partitions for n<=16 against itertools enumeration with Hardy-Weinberg weights; projection and calling-error matrices "
             "row-stochastic, non-negative and mean-preserving with and without inbreeding, continuous as F->0; no-call and "
